@@ -15,6 +15,9 @@
       hash-addressed store only after [Commit] staged them ([d_store_a], [d_store_v]); a
       leaf whose data is not in the store reads back as the empty value, as [loadData]
       does.
+    - every holder of a [*types.State] object (buffer entries, AccountState handles,
+      ContractState handles) keeps a copy of its content next to the pointer id; an in-place
+      write ([poke]) updates every copy with that id — this is the object heap, flattened.
     No proofs in this file. *)
 From Coq Require Import NArith List Bool Arith.
 From Verif Require Import StateBuf.Model.
@@ -51,13 +54,32 @@ Fixpoint list_eqb {A} (eqb : A -> A -> bool) (l1 l2 : list A) : bool :=
 Definition kv_eqb (a b : key * value) : bool := N.eqb (fst a) (fst b) && N.eqb (snd a) (snd b).
 Definition smap_eqb : smap -> smap -> bool := list_eqb kv_eqb.
 
-(** *types.State: pointer identity, content id (balance etc.), StorageRoot *)
-Record aval := mk_aval { a_ptr : nat; a_bal : N; a_root : smap }.
-Definition acontent : Type := N * smap.
-Definition content (v : aval) : acontent := (a_bal v, a_root v).
-Definition acontent_eqb (a b : acontent) : bool := N.eqb (fst a) (fst b) && smap_eqb (snd a) (snd b).
+(** the fields of types.State other than StorageRoot: Balance, Nonce, CodeHash (id of the
+    bytecode, 0 = none), SqlRecoveryPoint, SourceHash (id, 0 = none) *)
+Record fl := mk_fl { f_bal : N; f_nonce : N; f_code : N; f_rp : N; f_src : N }.
+Definition fl0 : fl := mk_fl 0 0 0 0 0.
+Definition fl_eqb (a b : fl) : bool :=
+  N.eqb (f_bal a) (f_bal b) && N.eqb (f_nonce a) (f_nonce b) && N.eqb (f_code a) (f_code b)
+  && N.eqb (f_rp a) (f_rp b) && N.eqb (f_src a) (f_src b).
+(** State.Clone copies Nonce, Balance, CodeHash, StorageRoot, SqlRecoveryPoint — not SourceHash *)
+Definition fl_clone (f : fl) : fl := mk_fl (f_bal f) (f_nonce f) (f_code f) (f_rp f) 0.
+Inductive fld := FBal | FNonce | FCode | FRp | FSrc.
+Definition fl_set (f : fl) (x : fld) (v : N) : fl :=
+  match x with
+  | FBal => mk_fl v (f_nonce f) (f_code f) (f_rp f) (f_src f)
+  | FNonce => mk_fl (f_bal f) v (f_code f) (f_rp f) (f_src f)
+  | FCode => mk_fl (f_bal f) (f_nonce f) v (f_rp f) (f_src f)
+  | FRp => mk_fl (f_bal f) (f_nonce f) (f_code f) v (f_src f)
+  | FSrc => mk_fl (f_bal f) (f_nonce f) (f_code f) (f_rp f) v
+  end.
+
+(** *types.State: pointer identity, fields, StorageRoot *)
+Record aval := mk_aval { a_ptr : nat; a_f : fl; a_root : smap }.
+Definition acontent : Type := fl * smap.
+Definition content (v : aval) : acontent := (a_f v, a_root v).
+Definition acontent_eqb (a b : acontent) : bool := fl_eqb (fst a) (fst b) && smap_eqb (snd a) (snd b).
 Definition amap := list (key * acontent).   (* account trie *)
-Definition empty_content : acontent := (0%N, []).
+Definition empty_content : acontent := (fl0, []).
 
 Record storage := mk_storage { s_buf : sbuf (option value); s_trie : smap; s_dirty : bool }.
 Record handle := mk_handle { h_cid : key; h_obj : option nat }.
@@ -65,10 +87,26 @@ Record bsnap := mk_bsnap { bs_state : nat; bs_storage : list (key * nat) }.
 
 (** state.AccountState (state/account.go): [oldState] is the pointer GetState returned (the
     buffered object itself when the account is in the buffer: [ah_optr]), [newState] a Clone with
-    its own identity [ah_ptr]; Add/SubBalance write through [newState]; PutState stores the
+    its own identity [ah_ptr]; the setters write through [newState]; PutState stores the
     [newState] pointer in the buffer — from then on the handle aliases the buffered entry. *)
-Record ahandle := mk_ah { ah_aid : key; ah_optr : option nat; ah_obal : N; ah_oroot : smap;
-                          ah_ptr : nat; ah_bal : N; ah_root : smap; ah_new : bool }.
+Record ahandle := mk_ah { ah_aid : key; ah_optr : option nat; ah_of : fl; ah_oroot : smap;
+                          ah_ptr : nat; ah_f : fl; ah_root : smap; ah_new : bool }.
+(** the *types.State a ContractState handle embeds ([cs.State]): pointer id when it is a
+    shared object (buffered entry or an AccountState's newState), content, cached bytecode *)
+Record hstate := mk_hst { hs_ptr : option nat; hs_f : fl; hs_root : smap; hs_code : option N }.
+
+(** what the caller holds besides ContractState handles and block snapshots, and the parts
+    of the store that are written directly *)
+Record xtra := mk_x {
+  x_ah : list ahandle;               (* state.AccountState handles, in creation order *)
+  x_hst : list hstate;               (* parallel to d_handles *)
+  x_raw : list (N * N);              (* ContractState.SetRawKV: written to the store at once *)
+  x_codes : list N;                  (* bytecode / source stored by SetCode (hash -> bytes), at once *)
+  x_roots : list amap;               (* account tries persisted by Commit, in commit order *)
+  x_ssnaps : list nat;               (* StateDB.Snapshot values *)
+  x_last : list N                    (* result of the last result-returning call *)
+}.
+Definition x0 : xtra := mk_x [] [] [] [] [] [] [].
 
 Record sdb := mk_sdb {
   d_buf : sbuf aval;                 (* StateDB.Buffer *)
@@ -82,26 +120,34 @@ Record sdb := mk_sdb {
   d_handles : list handle;           (* ContractState handles, in opening order *)
   d_snaps : list bsnap;              (* BlockSnapshot values, in taking order *)
   d_csnaps : list (nat * nat);       (* ContractState.Snapshot values: (handle, revision) *)
-  d_ah : list ahandle                (* state.AccountState handles, in creation order *)
+  d_x : xtra
 }.
+Definition d_ah (d : sdb) : list ahandle := x_ah (d_x d).
 
 Definition sdb_new (trie : amap) (sa : list acontent) (sv : list value) : sdb :=
   {| d_buf := sb_new; d_cache := []; d_heap := []; d_trie := trie; d_store_a := sa; d_store_v := sv;
-     d_nptr := 0; d_handles := []; d_snaps := []; d_csnaps := []; d_ah := [] |}.
+     d_nptr := 0; d_handles := []; d_snaps := []; d_csnaps := []; d_x := x0 |}.
 
 Definition set_buf (d : sdb) (b : sbuf aval) : sdb :=
-  mk_sdb b (d_cache d) (d_heap d) (d_trie d) (d_store_a d) (d_store_v d) (d_nptr d) (d_handles d) (d_snaps d) (d_csnaps d) (d_ah d).
+  mk_sdb b (d_cache d) (d_heap d) (d_trie d) (d_store_a d) (d_store_v d) (d_nptr d) (d_handles d) (d_snaps d) (d_csnaps d) (d_x d).
 Definition set_cache (d : sdb) (c : list (key * nat)) : sdb :=
-  mk_sdb (d_buf d) c (d_heap d) (d_trie d) (d_store_a d) (d_store_v d) (d_nptr d) (d_handles d) (d_snaps d) (d_csnaps d) (d_ah d).
+  mk_sdb (d_buf d) c (d_heap d) (d_trie d) (d_store_a d) (d_store_v d) (d_nptr d) (d_handles d) (d_snaps d) (d_csnaps d) (d_x d).
 Definition set_heap (d : sdb) (h : list storage) : sdb :=
-  mk_sdb (d_buf d) (d_cache d) h (d_trie d) (d_store_a d) (d_store_v d) (d_nptr d) (d_handles d) (d_snaps d) (d_csnaps d) (d_ah d).
+  mk_sdb (d_buf d) (d_cache d) h (d_trie d) (d_store_a d) (d_store_v d) (d_nptr d) (d_handles d) (d_snaps d) (d_csnaps d) (d_x d).
 Definition set_handles (d : sdb) (h : list handle) : sdb :=
-  mk_sdb (d_buf d) (d_cache d) (d_heap d) (d_trie d) (d_store_a d) (d_store_v d) (d_nptr d) h (d_snaps d) (d_csnaps d) (d_ah d).
+  mk_sdb (d_buf d) (d_cache d) (d_heap d) (d_trie d) (d_store_a d) (d_store_v d) (d_nptr d) h (d_snaps d) (d_csnaps d) (d_x d).
 Definition set_nptr (d : sdb) (n : nat) : sdb :=
-  mk_sdb (d_buf d) (d_cache d) (d_heap d) (d_trie d) (d_store_a d) (d_store_v d) n (d_handles d) (d_snaps d) (d_csnaps d) (d_ah d).
-
+  mk_sdb (d_buf d) (d_cache d) (d_heap d) (d_trie d) (d_store_a d) (d_store_v d) n (d_handles d) (d_snaps d) (d_csnaps d) (d_x d).
+Definition set_x (d : sdb) (x : xtra) : sdb :=
+  mk_sdb (d_buf d) (d_cache d) (d_heap d) (d_trie d) (d_store_a d) (d_store_v d) (d_nptr d) (d_handles d) (d_snaps d) (d_csnaps d) x.
+Definition set_trie (d : sdb) (t : amap) : sdb :=
+  mk_sdb (d_buf d) (d_cache d) (d_heap d) t (d_store_a d) (d_store_v d) (d_nptr d) (d_handles d) (d_snaps d) (d_csnaps d) (d_x d).
 Definition set_ah (d : sdb) (l : list ahandle) : sdb :=
-  mk_sdb (d_buf d) (d_cache d) (d_heap d) (d_trie d) (d_store_a d) (d_store_v d) (d_nptr d) (d_handles d) (d_snaps d) (d_csnaps d) l.
+  let x := d_x d in set_x d (mk_x l (x_hst x) (x_raw x) (x_codes x) (x_roots x) (x_ssnaps x) (x_last x)).
+Definition set_hst (d : sdb) (l : list hstate) : sdb :=
+  let x := d_x d in set_x d (mk_x (x_ah x) l (x_raw x) (x_codes x) (x_roots x) (x_ssnaps x) (x_last x)).
+Definition set_last (d : sdb) (l : list N) : sdb :=
+  let x := d_x d in set_x d (mk_x (x_ah x) (x_hst x) (x_raw x) (x_codes x) (x_roots x) (x_ssnaps x) l).
 
 Fixpoint list_set {A} (l : list A) (i : nat) (a : A) : list A :=
   match l, i with
@@ -126,17 +172,23 @@ Definition get_state_ptr (d : sdb) (a : key) : res (option (option nat * aconten
 Definition get_state (d : sdb) (a : key) : res (option acontent) :=
   bind (get_state_ptr d a) (fun r => Ok (match r with Some (_, c) => Some c | None => None end)).
 
+(** ContractState.GetInitialData: the storage trie only *)
+Definition initial_data (d : sdb) (st : storage) (k : key) : option value :=
+  match alookup k (s_trie st) with
+  | None => None
+  | Some v => if existsb (N.eqb v) (d_store_v d) then Some v else Some 0%N
+  end.
 (** ContractState.GetData through object [o] *)
 Definition get_data (d : sdb) (o : nat) (k : key) : res (option value) :=
   bind (of_opt (nth_error (d_heap d) o)) (fun st =>
   bind (sb_get (s_buf st) k) (fun r =>
   match r with
   | Some e => Ok (snd e)
-  | None => Ok (match alookup k (s_trie st) with
-                | None => None
-                | Some v => if existsb (N.eqb v) (d_store_v d) then Some v else Some 0%N
-                end)
+  | None => Ok (initial_data d st k)
   end)).
+(** ContractState.HasKey: Buffer.has (true also for a buffered delete) or present in the trie *)
+Definition has_key (st : storage) (k : key) : bool :=
+  sb_has (s_buf st) k || match alookup k (s_trie st) with Some _ => true | None => false end.
 
 Definition live_obj (d : sdb) (h : nat) : res (key * nat) :=
   match nth_error (d_handles d) h with
@@ -176,28 +228,33 @@ Definition apply_export_s (m : smap) (ex : list (entry (option value))) : smap :
 Definition apply_export_a (m : amap) (ex : list (entry aval)) : amap :=
   fold_left (fun m e => cm_set (fst e) (content (snd e)) m) ex m.
 
-(** st.StorageRoot = root written through pointer [p]: every entry holding [p] changes *)
-Definition poke_root (p : nat) (root : smap) (b : sbuf aval) : sbuf aval :=
+(** an in-place write [g] to the *types.State object [p]: every buffered entry holding [p]
+    changes, and so does every handle that holds the object (an AccountState as its newState
+    or its oldState, a ContractState as its embedded State) *)
+Definition poke_buf (p : nat) (g : acontent -> acontent) (b : sbuf aval) : sbuf aval :=
   mk_sbuf (map (fun e => if Nat.eqb (a_ptr (snd e)) p
-                        then (fst e, mk_aval p (a_bal (snd e)) root) else e) (entries b))
+                        then (fst e, mk_aval p (fst (g (content (snd e)))) (snd (g (content (snd e))))) else e)
+               (entries b))
           (index b) (next_idx b).
-
-(** the same write seen through AccountState handles that hold the object: as their
-    newState (after PutState) or as their oldState (fetched after somebody's PutState) *)
-Definition poke_ah_root (p : nat) (root : smap) (l : list ahandle) : list ahandle :=
-  map (fun h => mk_ah (ah_aid h) (ah_optr h) (ah_obal h)
-                      (match ah_optr h with Some q => if Nat.eqb q p then root else ah_oroot h | None => ah_oroot h end)
-                      (ah_ptr h) (ah_bal h) (if Nat.eqb (ah_ptr h) p then root else ah_root h) (ah_new h)) l.
-(** newState.Balance = bal written through the newState pointer [p] of a handle: buffered
-    entries holding [p] (the handle was PutState'd) and handles whose oldState is [p] change *)
-Definition poke_bal (p : nat) (bal : N) (b : sbuf aval) : sbuf aval :=
-  mk_sbuf (map (fun e => if Nat.eqb (a_ptr (snd e)) p
-                        then (fst e, mk_aval p bal (a_root (snd e))) else e) (entries b))
-          (index b) (next_idx b).
-Definition poke_ah_obal (p : nat) (bal : N) (l : list ahandle) : list ahandle :=
-  map (fun h => mk_ah (ah_aid h) (ah_optr h)
-                      (match ah_optr h with Some q => if Nat.eqb q p then bal else ah_obal h | None => ah_obal h end)
-                      (ah_oroot h) (ah_ptr h) (ah_bal h) (ah_root h) (ah_new h)) l.
+Definition poke_ah (p : nat) (g : acontent -> acontent) (l : list ahandle) : list ahandle :=
+  map (fun h =>
+         let o := match ah_optr h with
+                  | Some q => if Nat.eqb q p then g (ah_of h, ah_oroot h) else (ah_of h, ah_oroot h)
+                  | None => (ah_of h, ah_oroot h)
+                  end in
+         let n := if Nat.eqb (ah_ptr h) p then g (ah_f h, ah_root h) else (ah_f h, ah_root h) in
+         mk_ah (ah_aid h) (ah_optr h) (fst o) (snd o) (ah_ptr h) (fst n) (snd n) (ah_new h)) l.
+Definition poke_hst (p : nat) (g : acontent -> acontent) (l : list hstate) : list hstate :=
+  map (fun h => match hs_ptr h with
+                | Some q => if Nat.eqb q p
+                            then mk_hst (hs_ptr h) (fst (g (hs_f h, hs_root h))) (snd (g (hs_f h, hs_root h))) (hs_code h)
+                            else h
+                | None => h
+                end) l.
+Definition poke (d : sdb) (p : nat) (g : acontent -> acontent) : sdb :=
+  let x := d_x d in
+  set_x (set_buf d (poke_buf p g (d_buf d)))
+        (mk_x (poke_ah p g (x_ah x)) (poke_hst p g (x_hst x)) (x_raw x) (x_codes x) (x_roots x) (x_ssnaps x) (x_last x)).
 
 (** StateDB.updateStorage, one cached storage *)
 Definition update_one (d : sdb) (cid : key) (o : nat) : res sdb :=
@@ -209,13 +266,14 @@ Definition update_one (d : sdb) (cid : key) (o : nat) : res sdb :=
   if dirty' then
     bind (get_state_ptr d1 cid) (fun cur =>
     match cur with
-    | Some (Some p, (bal, _)) =>
-        Ok (set_ah (set_buf d1 (sb_put (poke_root p trie' (d_buf d1)) (cid, mk_aval p bal trie')))
-                   (poke_ah_root p trie' (d_ah d1)))
-    | Some (None, (bal, _)) =>
-        Ok (set_nptr (set_buf d1 (sb_put (d_buf d1) (cid, mk_aval (d_nptr d1) bal trie'))) (S (d_nptr d1)))
+    | Some (Some p, (f, _)) =>
+        (* st.StorageRoot = root through the buffered pointer, then the same pointer is put again *)
+        let d2 := poke d1 p (fun c => (fst c, trie')) in
+        Ok (set_buf d2 (sb_put (d_buf d2) (cid, mk_aval p f trie')))
+    | Some (None, (f, _)) =>
+        Ok (set_nptr (set_buf d1 (sb_put (d_buf d1) (cid, mk_aval (d_nptr d1) f trie'))) (S (d_nptr d1)))
     | None =>
-        Ok (set_nptr (set_buf d1 (sb_put (d_buf d1) (cid, mk_aval (d_nptr d1) 0%N trie'))) (S (d_nptr d1)))
+        Ok (set_nptr (set_buf d1 (sb_put (d_buf d1) (cid, mk_aval (d_nptr d1) fl0 trie'))) (S (d_nptr d1)))
     end)
   else Ok d1)).
 Fixpoint update_storages (d : sdb) (c : list (key * nat)) : res sdb :=
@@ -226,9 +284,7 @@ Fixpoint update_storages (d : sdb) (c : list (key * nat)) : res sdb :=
 (** StateDB.Update *)
 Definition db_update (d : sdb) : res sdb :=
   bind (update_storages d (d_cache d)) (fun d1 =>
-  bind (sb_export (d_buf d1)) (fun ex =>
-  Ok (mk_sdb (d_buf d1) (d_cache d1) (d_heap d1) (apply_export_a (d_trie d1) ex) (d_store_a d1) (d_store_v d1)
-             (d_nptr d1) (d_handles d1) (d_snaps d1) (d_csnaps d1) (d_ah d1)))).
+  bind (sb_export (d_buf d1)) (fun ex => Ok (set_trie d1 (apply_export_a (d_trie d1) ex)))).
 
 Fixpoint somes {A} (l : list (option A)) : list A :=
   match l with [] => [] | Some a :: tl => a :: somes tl | None :: tl => somes tl end.
@@ -242,15 +298,23 @@ Fixpoint commit_storages (d : sdb) (c : list (key * nat)) : res sdb :=
       bind (sb_reset (s_buf st)) (fun b =>
       let d1 := mk_sdb (d_buf d) (d_cache d) (list_set (d_heap d) o (mk_storage b (s_trie st) (s_dirty st)))
                        (d_trie d) (d_store_a d) (d_store_v d ++ somes (map snd staged)) (d_nptr d)
-                       (d_handles d) (d_snaps d) (d_csnaps d) (d_ah d) in
+                       (d_handles d) (d_snaps d) (d_csnaps d) (d_x d) in
       commit_storages d1 tl)))
   end.
+Definition add_root (x : xtra) (t : amap) : xtra :=
+  mk_x (x_ah x) (x_hst x) (x_raw x) (x_codes x) (x_roots x ++ [t]) (x_ssnaps x) (x_last x).
 Definition db_commit (d : sdb) : res sdb :=
   bind (commit_storages d (d_cache d)) (fun d1 =>
   bind (sb_stage (d_buf d1)) (fun staged =>
   bind (sb_reset (d_buf d1)) (fun b =>
   Ok (mk_sdb b (d_cache d1) (d_heap d1) (d_trie d1) (d_store_a d1 ++ map (fun e => content (snd e)) staged)
-             (d_store_v d1) (d_nptr d1) (d_handles d1) (d_snaps d1) (d_csnaps d1) (d_ah d1))))).
+             (d_store_v d1) (d_nptr d1) (d_handles d1) (d_snaps d1) (d_csnaps d1) (add_root (d_x d1) (d_trie d1)))))).
+
+(** NewStateDB(store, root): fresh buffer and cache; the store (staged data, raw keys, code,
+    persisted roots) stays; the caller's handles and snapshots belong to the old instance *)
+Definition reopen_at (d : sdb) (t : amap) : sdb :=
+  set_x (sdb_new t (d_store_a d) (d_store_v d))
+        (mk_x [] [] (x_raw (d_x d)) (x_codes (d_x d)) (x_roots (d_x d)) [] []).
 
 (** ---- the operations driven by the engine ---- *)
 Inductive op :=
@@ -264,18 +328,30 @@ Inductive op :=
 | OCSnap (h : nat)                  (* ContractState.Snapshot through handle h *)
 | OCRollback (j : nat)              (* ContractState.Rollback(contract snapshot j) *)
 | OUpdate | OCommit
-| OReopen                           (* NewStateDB(store, GetRoot()): only issued right after Commit *)
+| OReopen                           (* NewStateDB(store, GetRoot()) / StateDB.Clone(): only issued right after Commit *)
 | OClear                            (* the caller forgets all its handles and contract snapshots *)
 | OAGet (a : key)                   (* state.GetAccountState(a): AccountState handle appended to its table *)
 | OAAdd (h : nat) (v : N)           (* AccountState.AddBalance *)
 | OASub (h : nat) (v : N)           (* AccountState.SubBalance (big.Int.Bytes drops the sign) *)
 | OAPut (h : nat)                   (* AccountState.PutState *)
-| OAReset (h : nat).                (* AccountState.Reset: newState = oldState.Clone() *)
+| OAReset (h : nat)                 (* AccountState.Reset: newState = oldState.Clone() *)
+| OACreate (a : key)                (* state.CreateAccountState(a): refused when the account exists *)
+| OASetF (h : nat) (x : fld) (v : N) (* AccountState.SetNonce / SetCodeHash / SetRP *)
+| OOpenAs (h : nat)                 (* OpenContractState(as.ID(), as.State(), sdb): the executor's way *)
+| OSetCode (h : nat) (c s : N)      (* ContractState.SetCode(source s (0 = none), bytecode c) *)
+| OGetCode (h : nat)                (* ContractState.GetCode: result in x_last *)
+| ORawSet (h : nat) (k v : N)       (* ContractState.SetRawKV *)
+| ORawGet (h : nat) (k : N)         (* ContractState.GetRawKV: result in x_last *)
+| OSSnap                            (* StateDB.Snapshot (account buffer revision only) *)
+| OSRollback (j : nat)              (* StateDB.Rollback(revision j) *)
+| OSetRoot (i : nat)                (* StateDB.SetRoot / Revert to the i-th persisted root *)
+| OReopenAt (i : nat)               (* ChainStateDB.SetRoot(root i); NewBlockState(root i) *)
+| OApply.                           (* ChainStateDB.Apply: Update, Commit, main SetRoot; new block state at it *)
 
-(** Add/SubBalance through handle [h]: the handle's newState object gets the new balance *)
-Definition ah_write (d : sdb) (h : nat) (ah : ahandle) (bal : N) : sdb :=
-  let l := list_set (d_ah d) h (mk_ah (ah_aid ah) (ah_optr ah) (ah_obal ah) (ah_oroot ah) (ah_ptr ah) bal (ah_root ah) (ah_new ah)) in
-  set_ah (set_buf d (poke_bal (ah_ptr ah) bal (d_buf d))) (poke_ah_obal (ah_ptr ah) bal l).
+(** a setter through AccountState handle [h]: the handle's newState object gets content [f] *)
+Definition ah_write (d : sdb) (h : nat) (ah : ahandle) (f : fl) : sdb :=
+  let d1 := poke d (ah_ptr ah) (fun c => (f, snd c)) in
+  set_ah d1 (list_set (d_ah d1) h (mk_ah (ah_aid ah) (ah_optr ah) (ah_of ah) (ah_oroot ah) (ah_ptr ah) f (ah_root ah) (ah_new ah))).
 
 Definition block_snapshot (d : sdb) : res bsnap :=
   bind (cache_snapshot (d_heap d) (d_cache d)) (fun cs => Ok (mk_bsnap (sb_snapshot (d_buf d)) cs)).
@@ -283,21 +359,32 @@ Definition block_rollback (d : sdb) (s : bsnap) : res sdb :=
   bind (cache_rollback d (bs_storage s) (d_cache d)) (fun d1 =>
   bind (sb_rollback (d_buf d1) (bs_state s)) (fun b => Ok (set_buf d1 b))).
 
+(** the bufferedStorage a new handle for contract [c] gets: the cached one, or a fresh one
+    over the storage root of the State it was opened with *)
+Definition open_handle (d : sdb) (c : key) (root : smap) (hs : hstate) : sdb :=
+  match alookup c (d_cache d) with
+  | Some o => set_hst (set_handles d (d_handles d ++ [mk_handle c (Some o)])) (x_hst (d_x d) ++ [hs])
+  | None =>
+      set_hst (set_handles (set_heap d (d_heap d ++ [mk_storage sb_new root false]))
+                           (d_handles d ++ [mk_handle c (Some (length (d_heap d)))]))
+              (x_hst (d_x d) ++ [hs])
+  end.
+
 Definition step (d : sdb) (o : op) : res sdb :=
   match o with
   | OPut a v =>
       bind (get_state d a) (fun cur =>
-      let root := match cur with Some (_, r) => r | None => [] end in
-      Ok (set_nptr (set_buf d (sb_put (d_buf d) (a, mk_aval (d_nptr d) v root))) (S (d_nptr d))))
+      let c := match cur with Some (f, r) => (fl_set (fl_clone f) FBal v, r) | None => (fl_set fl0 FBal v, []) end in
+      Ok (set_nptr (set_buf d (sb_put (d_buf d) (a, mk_aval (d_nptr d) (fst c) (snd c)))) (S (d_nptr d))))
   | OOpen c =>
-      bind (get_state d c) (fun cur =>
-      match alookup c (d_cache d) with
-      | Some o => Ok (set_handles d (d_handles d ++ [mk_handle c (Some o)]))
-      | None =>
-          let root := match cur with Some (_, r) => r | None => [] end in
-          Ok (set_handles (set_heap d (d_heap d ++ [mk_storage sb_new root false]))
-                          (d_handles d ++ [mk_handle c (Some (length (d_heap d)))]))
+      bind (get_state_ptr d c) (fun cur =>
+      match cur with
+      | Some (p, (f, r)) => Ok (open_handle d c r (mk_hst p f r None))
+      | None => Ok (open_handle d c [] (mk_hst None fl0 [] None))
       end)
+  | OOpenAs h =>
+      bind (of_opt (nth_error (d_ah d) h)) (fun ah =>
+      Ok (open_handle d (ah_aid ah) (ah_root ah) (mk_hst (Some (ah_ptr ah)) (ah_f ah) (ah_root ah) None)))
   | OSet h k v => bind (live_obj d h) (fun co => heap_put d (snd co) (k, Some v))
   | ODel h k => bind (live_obj d h) (fun co => heap_put d (snd co) (k, None))
   | OStage h =>
@@ -307,42 +394,94 @@ Definition step (d : sdb) (o : op) : res sdb :=
   | OSnap =>
       bind (block_snapshot d) (fun s =>
       Ok (mk_sdb (d_buf d) (d_cache d) (d_heap d) (d_trie d) (d_store_a d) (d_store_v d) (d_nptr d)
-                 (d_handles d) (d_snaps d ++ [s]) (d_csnaps d) (d_ah d)))
+                 (d_handles d) (d_snaps d ++ [s]) (d_csnaps d) (d_x d)))
   | ORollback i => bind (of_opt (nth_error (d_snaps d) i)) (fun s => block_rollback d s)
   | OCSnap h =>
       bind (live_obj d h) (fun co =>
       bind (of_opt (nth_error (d_heap d) (snd co))) (fun st =>
       Ok (mk_sdb (d_buf d) (d_cache d) (d_heap d) (d_trie d) (d_store_a d) (d_store_v d) (d_nptr d)
-                 (d_handles d) (d_snaps d) (d_csnaps d ++ [(h, sb_snapshot (s_buf st))]) (d_ah d))))
+                 (d_handles d) (d_snaps d) (d_csnaps d ++ [(h, sb_snapshot (s_buf st))]) (d_x d))))
   | OCRollback j =>
       bind (of_opt (nth_error (d_csnaps d) j)) (fun hr =>
       bind (live_obj d (fst hr)) (fun co => heap_rollback d (snd co) (snd hr)))
   | OUpdate => db_update d
   | OCommit => db_commit d
-  | OReopen => Ok (sdb_new (d_trie d) (d_store_a d) (d_store_v d))
+  | OReopen => Ok (reopen_at d (d_trie d))
   | OClear =>
+      let x := d_x d in
       Ok (mk_sdb (d_buf d) (d_cache d) (d_heap d) (d_trie d) (d_store_a d) (d_store_v d) (d_nptr d)
-                 [] (d_snaps d) [] [])
+                 [] (d_snaps d) [] (mk_x [] [] (x_raw x) (x_codes x) (x_roots x) (x_ssnaps x) (x_last x)))
   | OAGet a =>
       bind (get_state_ptr d a) (fun cur =>
       let h := match cur with
-               | Some (op, (bal, rt)) => mk_ah a op bal rt (d_nptr d) bal rt false
-               | None => mk_ah a None 0%N [] (d_nptr d) 0%N [] true
+               | Some (op, (f, rt)) => mk_ah a op f rt (d_nptr d) (fl_clone f) rt false
+               | None => mk_ah a None fl0 [] (d_nptr d) fl0 [] true
                end in
       Ok (set_nptr (set_ah d (d_ah d ++ [h])) (S (d_nptr d))))
+  | OACreate a =>
+      bind (get_state_ptr d a) (fun cur =>
+      match cur with
+      | Some _ => Ok d                                  (* "account already exists": no handle *)
+      | None => Ok (set_nptr (set_ah d (d_ah d ++ [mk_ah a None fl0 [] (d_nptr d) (fl_set fl0 FRp 1) [] true])) (S (d_nptr d)))
+      end)
   | OAAdd h v =>
-      bind (of_opt (nth_error (d_ah d) h)) (fun ah => Ok (ah_write d h ah (ah_bal ah + v)%N))
+      bind (of_opt (nth_error (d_ah d) h)) (fun ah => Ok (ah_write d h ah (fl_set (ah_f ah) FBal (f_bal (ah_f ah) + v)%N)))
   | OASub h v =>
       bind (of_opt (nth_error (d_ah d) h)) (fun ah =>
-      Ok (ah_write d h ah (if (v <=? ah_bal ah)%N then (ah_bal ah - v)%N else (v - ah_bal ah)%N)))
+      let b := f_bal (ah_f ah) in
+      Ok (ah_write d h ah (fl_set (ah_f ah) FBal (if (v <=? b)%N then (b - v)%N else (v - b)%N))))
+  | OASetF h x v =>
+      bind (of_opt (nth_error (d_ah d) h)) (fun ah => Ok (ah_write d h ah (fl_set (ah_f ah) x v)))
   | OAPut h =>
       bind (of_opt (nth_error (d_ah d) h)) (fun ah =>
-      Ok (set_buf d (sb_put (d_buf d) (ah_aid ah, mk_aval (ah_ptr ah) (ah_bal ah) (ah_root ah)))))
+      Ok (set_buf d (sb_put (d_buf d) (ah_aid ah, mk_aval (ah_ptr ah) (ah_f ah) (ah_root ah)))))
   | OAReset h =>
       bind (of_opt (nth_error (d_ah d) h)) (fun ah =>
       Ok (set_nptr (set_ah d (list_set (d_ah d) h
-            (mk_ah (ah_aid ah) (ah_optr ah) (ah_obal ah) (ah_oroot ah) (d_nptr d) (ah_obal ah) (ah_oroot ah) (ah_new ah))))
+            (mk_ah (ah_aid ah) (ah_optr ah) (ah_of ah) (ah_oroot ah) (d_nptr d) (fl_clone (ah_of ah)) (ah_oroot ah) (ah_new ah))))
                    (S (d_nptr d))))
+  | OSetCode h c s =>
+      bind (of_opt (nth_error (x_hst (d_x d)) h)) (fun hs =>
+      let g := fun (cc : acontent) =>
+                 (let f1 := fl_set (fst cc) FCode c in if (s =? 0)%N then f1 else fl_set f1 FSrc s, snd cc) in
+      let d1 := match hs_ptr hs with Some p => poke d p g | None => d end in
+      let x := d_x d1 in
+      let hs' := mk_hst (hs_ptr hs) (fst (g (hs_f hs, hs_root hs))) (hs_root hs) (Some c) in
+      Ok (set_x d1 (mk_x (x_ah x) (list_set (x_hst x) h hs') (x_raw x)
+                         (x_codes x ++ c :: (if (s =? 0)%N then [] else [s])) (x_roots x) (x_ssnaps x) (x_last x))))
+  | OGetCode h =>
+      bind (of_opt (nth_error (x_hst (d_x d)) h)) (fun hs =>
+      match hs_code hs with
+      | Some c => Ok (set_last d [1%N; c])
+      | None =>
+          let c := f_code (hs_f hs) in
+          if (c =? 0)%N then Ok (set_last d [0%N])
+          else if existsb (N.eqb c) (x_codes (d_x d))
+               then Ok (set_last (set_hst d (list_set (x_hst (d_x d)) h (mk_hst (hs_ptr hs) (hs_f hs) (hs_root hs) (Some c)))) [1%N; c])
+               else Ok (set_last d [0%N])
+      end)
+  | ORawSet h k v =>
+      bind (of_opt (nth_error (x_hst (d_x d)) h)) (fun _ =>
+      let x := d_x d in
+      Ok (set_x d (mk_x (x_ah x) (x_hst x) (aset k v (x_raw x)) (x_codes x) (x_roots x) (x_ssnaps x) (x_last x))))
+  | ORawGet h k =>
+      bind (of_opt (nth_error (x_hst (d_x d)) h)) (fun _ =>
+      Ok (set_last d (match alookup k (x_raw (d_x d)) with
+                      | Some v => if (v =? 0)%N then [0%N] else [1%N; v]
+                      | None => [0%N]
+                      end)))
+  | OSSnap =>
+      let x := d_x d in
+      Ok (set_x d (mk_x (x_ah x) (x_hst x) (x_raw x) (x_codes x) (x_roots x) (x_ssnaps x ++ [sb_snapshot (d_buf d)]) (x_last x)))
+  | OSRollback j =>
+      bind (of_opt (nth_error (x_ssnaps (d_x d)) j)) (fun rev =>
+      bind (sb_rollback (d_buf d) rev) (fun b => Ok (set_buf d b)))
+  | OSetRoot i =>
+      bind (of_opt (nth_error (x_roots (d_x d)) i)) (fun t =>
+      bind (sb_reset (d_buf d)) (fun b => Ok (set_trie (set_buf d b) t)))
+  | OReopenAt i => bind (of_opt (nth_error (x_roots (d_x d)) i)) (fun t => Ok (reopen_at d t))
+  | OApply =>
+      bind (db_update d) (fun d1 => bind (db_commit d1) (fun d2 => Ok (reopen_at d2 (d_trie d2))))
   end.
 
 Fixpoint run (d : sdb) (ops : list op) : res sdb :=
@@ -358,6 +497,7 @@ Definition root_eqb (a b : root) : bool :=
   end.
 
 Definition enc_opt (o : option N) : list N := match o with None => [0%N] | Some v => [1%N; v] end.
+Definition enc_fl (f : fl) : list N := [f_bal f; f_nonce f; f_code f; f_rp f; f_src f].
 Definition nN (n : nat) : N := N.of_nat n.
 
 Fixpoint mapM {A B} (f : A -> res B) (l : list A) : res (list B) :=
@@ -368,14 +508,16 @@ Fixpoint mapM {A B} (f : A -> res B) (l : list A) : res (list B) :=
 
 Definition obs_account (d : sdb) (a : key) : res (list N * list root) :=
   bind (get_state d a) (fun r =>
-  Ok (match r with None => ([0%N], []) | Some (bal, rt) => ([1%N; bal], [RS rt]) end)).
+  Ok (match r with None => ([0%N], []) | Some (f, rt) => (1%N :: enc_fl f, [RS rt]) end)).
 Definition obs_handle (uk : list key) (d : sdb) (h : handle) : res (list N * list root) :=
   match h_obj h with
   | None => Ok ([0%N], [])
   | Some o =>
       bind (of_opt (nth_error (d_heap d) o)) (fun st =>
       bind (mapM (get_data d o) uk) (fun vs =>
-      Ok (1%N :: nN (next_idx (s_buf st)) :: concat (map enc_opt vs), [])))
+      Ok (1%N :: nN (next_idx (s_buf st)) :: concat (map enc_opt vs)
+            ++ map (fun k => if has_key st k then 1%N else 0%N) uk
+            ++ concat (map (fun k => enc_opt (initial_data d st k)) uk), [])))
   end.
 Definition enc_stack (b : sbuf (option value)) (k : key) : list N :=
   match alookup k (index b) with
@@ -395,11 +537,15 @@ Definition obs_cached (uk : list key) (d : sdb) (c : key) : res (list N * list r
   end.
 Definition obs_abuf (d : sdb) : res (list N * list root) :=
   bind (sb_export (d_buf d)) (fun ex =>
-  Ok (nN (next_idx (d_buf d)) :: nN (length ex) :: concat (map (fun e => [fst e; a_bal (snd e)]) ex),
+  Ok (nN (next_idx (d_buf d)) :: nN (length ex) :: concat (map (fun e => fst e :: enc_fl (a_f (snd e))) ex),
       map (fun e => RS (a_root (snd e))) ex)).
 
+(** AccountState handle: fields of newState, IsNew, IsContract; its StorageRoot *)
 Definition obs_ahandle (h : ahandle) : list N * list root :=
-  ([ah_bal h; if ah_new h then 1%N else 0%N], [RS (ah_root h)]).
+  (enc_fl (ah_f h) ++ [if ah_new h then 1%N else 0%N;
+                       if (f_code (ah_f h) =? 0)%N && (f_src (ah_f h) =? 0)%N then 0%N else 1%N], [RS (ah_root h)]).
+(** the State embedded in a ContractState handle *)
+Definition obs_hst (h : hstate) : list N * list root := (enc_fl (hs_f h), [RS (hs_root h)]).
 
 Definition cat2 (l : list (list N * list root)) : list N * list root :=
   (concat (map fst l), concat (map snd l)).
@@ -413,8 +559,10 @@ Definition observe (ua uk : list key) (d : sdb) : res (list N * list root) :=
   let '(n2, r2) := cat2 oh in
   let '(n3, r3) := cat2 oc in
   let '(n4, r4) := cat2 (map obs_ahandle (d_ah d)) in
-  Ok (n1 ++ nN (length (d_handles d)) :: n2 ++ n3 ++ fst ob ++ nN (length (d_ah d)) :: n4,
-      r1 ++ r3 ++ snd ob ++ r4 ++ [RA (d_trie d)]))))).
+  let '(n5, r5) := cat2 (map obs_hst (x_hst (d_x d))) in
+  Ok (n1 ++ nN (length (d_handles d)) :: n2 ++ n3 ++ fst ob ++ nN (length (d_ah d)) :: n4
+         ++ nN (length (x_hst (d_x d))) :: n5 ++ nN (length (x_last (d_x d))) :: x_last (d_x d),
+      r1 ++ r3 ++ snd ob ++ r4 ++ r5 ++ [RA (d_trie d)]))))).
 
 (** implementation roots are opaque byte strings, numbered by the check script; the model's
     roots are maps.  Both must induce the same equalities: a partial bijection is extended
